@@ -1,0 +1,454 @@
+//! Verification hooks. Compiled only with `--cfg btdht_verif`; nothing here is reachable from the
+//! rest of the crate unless a recorder has been installed with [`install_sink`].
+//!
+//! * an event sink (`emit`) that the cfg-gated one-line hooks in the crate report to,
+//! * thin public wrappers over the crate-private components (routing table, token store, peer
+//!   store, transaction id generators) so that a harness can drive them directly and read back
+//!   their state.
+
+#![allow(dead_code)]
+
+use crate::{
+    info_hash::{InfoHash, NodeId, INFO_HASH_LEN},
+    node::{Node, NodeHandle, NodeStatus},
+    storage::AnnounceStorage,
+    table::RoutingTable,
+    token::{Token, TokenStore},
+    transaction::{AIDGenerator, MIDGenerator},
+};
+use std::{
+    cell::RefCell,
+    collections::HashSet,
+    net::{IpAddr, SocketAddr},
+    sync::OnceLock,
+    time::Instant as StdInstant,
+};
+
+// ---------------------------------------------------------------------------------------------
+// Time base
+
+static EPOCH: OnceLock<StdInstant> = OnceLock::new();
+
+/// Fix the instant that all reported times are relative to (first call wins).
+pub fn set_epoch() {
+    EPOCH.get_or_init(|| tokio::time::Instant::now().into_std());
+}
+
+pub(crate) fn epoch() -> StdInstant {
+    *EPOCH.get_or_init(|| tokio::time::Instant::now().into_std())
+}
+
+/// Milliseconds since the epoch on the crate's clock.
+pub fn now_ms() -> i64 {
+    crate::time::Instant::now().verif_ms_since(epoch())
+}
+
+pub(crate) fn ms(instant: crate::time::Instant) -> i64 {
+    instant.verif_ms_since(epoch())
+}
+
+pub(crate) fn tokio_ms(instant: tokio::time::Instant) -> i64 {
+    let instant = instant.into_std();
+    let epoch = epoch();
+    if instant >= epoch {
+        (instant - epoch).as_millis() as i64
+    } else {
+        -((epoch - instant).as_millis() as i64)
+    }
+}
+
+// ---------------------------------------------------------------------------------------------
+// Event sink
+
+#[derive(Clone, Debug)]
+pub enum Val {
+    Null,
+    Bool(bool),
+    Int(i64),
+    Bytes(Vec<u8>),
+    Str(String),
+    Addr(SocketAddr),
+    List(Vec<Val>),
+    Rec(Vec<(&'static str, Val)>),
+}
+
+impl From<bool> for Val {
+    fn from(v: bool) -> Self {
+        Val::Bool(v)
+    }
+}
+impl From<i64> for Val {
+    fn from(v: i64) -> Self {
+        Val::Int(v)
+    }
+}
+impl From<usize> for Val {
+    fn from(v: usize) -> Self {
+        Val::Int(v as i64)
+    }
+}
+impl From<u64> for Val {
+    fn from(v: u64) -> Self {
+        Val::Int(v as i64)
+    }
+}
+impl From<&[u8]> for Val {
+    fn from(v: &[u8]) -> Self {
+        Val::Bytes(v.to_vec())
+    }
+}
+impl From<Vec<u8>> for Val {
+    fn from(v: Vec<u8>) -> Self {
+        Val::Bytes(v)
+    }
+}
+impl From<&str> for Val {
+    fn from(v: &str) -> Self {
+        Val::Str(v.to_owned())
+    }
+}
+impl From<String> for Val {
+    fn from(v: String) -> Self {
+        Val::Str(v)
+    }
+}
+impl From<SocketAddr> for Val {
+    fn from(v: SocketAddr) -> Self {
+        Val::Addr(v)
+    }
+}
+impl From<InfoHash> for Val {
+    fn from(v: InfoHash) -> Self {
+        Val::Bytes(v.as_ref().to_vec())
+    }
+}
+impl From<NodeHandle> for Val {
+    fn from(v: NodeHandle) -> Self {
+        Val::Rec(vec![("id", v.id.into()), ("addr", v.addr.into())])
+    }
+}
+impl<T: Into<Val>> From<Option<T>> for Val {
+    fn from(v: Option<T>) -> Self {
+        match v {
+            Some(v) => v.into(),
+            None => Val::Null,
+        }
+    }
+}
+impl<T: Into<Val>> From<Vec<T>> for Val
+where
+    T: NotU8,
+{
+    fn from(v: Vec<T>) -> Self {
+        Val::List(v.into_iter().map(Into::into).collect())
+    }
+}
+/// Marker to keep `Vec<u8>` (bytes) apart from lists of values.
+pub trait NotU8 {}
+impl NotU8 for Val {}
+impl NotU8 for NodeHandle {}
+impl NotU8 for SocketAddr {}
+impl NotU8 for i64 {}
+impl NotU8 for Vec<u8> {}
+impl NotU8 for SlotDump {}
+
+#[derive(Clone, Debug)]
+pub struct Event {
+    pub kind: &'static str,
+    pub fields: Vec<(&'static str, Val)>,
+}
+
+type Sink = Box<dyn FnMut(Event)>;
+
+thread_local! {
+    static SINK: RefCell<Option<Sink>> = const { RefCell::new(None) };
+}
+
+/// Install the recorder for the current thread.
+pub fn install_sink<F: FnMut(Event) + 'static>(sink: F) {
+    SINK.with(|s| *s.borrow_mut() = Some(Box::new(sink)));
+}
+
+pub fn remove_sink() {
+    SINK.with(|s| *s.borrow_mut() = None);
+}
+
+pub fn enabled() -> bool {
+    SINK.with(|s| s.borrow().is_some())
+}
+
+/// Report an event. No-op unless a sink is installed on this thread. The fields are built lazily.
+pub fn emit<F>(kind: &'static str, fields: F)
+where
+    F: FnOnce() -> Vec<(&'static str, Val)>,
+{
+    SINK.with(|s| {
+        if let Ok(mut s) = s.try_borrow_mut() {
+            if let Some(sink) = s.as_mut() {
+                sink(Event {
+                    kind,
+                    fields: fields(),
+                });
+            }
+        }
+    });
+}
+
+// ---------------------------------------------------------------------------------------------
+// Routing table
+
+pub const STATUS_BAD: u8 = 0;
+pub const STATUS_QUESTIONABLE: u8 = 1;
+pub const STATUS_GOOD: u8 = 2;
+
+pub(crate) fn status_code(status: NodeStatus) -> u8 {
+    match status {
+        NodeStatus::Bad => STATUS_BAD,
+        NodeStatus::Questionable => STATUS_QUESTIONABLE,
+        NodeStatus::Good => STATUS_GOOD,
+    }
+}
+
+/// One slot of a bucket: the contact, its raw time stamps (ms since the epoch) and its status.
+#[derive(Clone, Debug, PartialEq, Eq)]
+pub struct SlotDump {
+    pub id: [u8; INFO_HASH_LEN],
+    pub addr: SocketAddr,
+    pub last_response: Option<i64>,
+    pub last_request: Option<i64>,
+    pub last_local_request: Option<i64>,
+    pub refresh_requests: usize,
+    pub status: u8,
+}
+
+impl From<SlotDump> for Val {
+    fn from(s: SlotDump) -> Self {
+        Val::Rec(vec![
+            ("id", Val::Bytes(s.id.to_vec())),
+            ("addr", s.addr.into()),
+            ("rsp", s.last_response.into()),
+            ("req", s.last_request.into()),
+            ("loc", s.last_local_request.into()),
+            ("cnt", s.refresh_requests.into()),
+            ("st", Val::Int(s.status as i64)),
+        ])
+    }
+}
+
+pub(crate) fn dump_node(node: &Node) -> SlotDump {
+    let (last_request, last_response, last_local_request, refresh_requests) = node.verif_fields();
+    SlotDump {
+        id: node.id().into(),
+        addr: node.addr(),
+        last_response: last_response.map(ms),
+        last_request: last_request.map(ms),
+        last_local_request: last_local_request.map(ms),
+        refresh_requests,
+        status: status_code(node.status()),
+    }
+}
+
+pub(crate) fn dump_table(table: &RoutingTable) -> Vec<Vec<SlotDump>> {
+    table
+        .buckets()
+        .map(|bucket| bucket.iter().map(dump_node).collect())
+        .collect()
+}
+
+pub(crate) fn table_val(table: &RoutingTable) -> Val {
+    Val::List(
+        dump_table(table)
+            .into_iter()
+            .map(|bucket| {
+                Val::List(
+                    bucket
+                        .into_iter()
+                        // Never used placeholder slots are reported as null.
+                        .map(|slot| {
+                            if slot.last_response.is_none() {
+                                Val::Null
+                            } else {
+                                slot.into()
+                            }
+                        })
+                        .collect(),
+                )
+            })
+            .collect(),
+    )
+}
+
+pub struct Table(RoutingTable);
+
+impl Table {
+    pub fn new(id: [u8; INFO_HASH_LEN]) -> Self {
+        Self(RoutingTable::new(NodeId::from(id)))
+    }
+
+    pub fn set_routers(&mut self, routers: HashSet<SocketAddr>) {
+        self.0.routers = routers;
+    }
+
+    /// Offer a node that has just answered us.
+    pub fn offer_good(&mut self, id: [u8; INFO_HASH_LEN], addr: SocketAddr) {
+        self.0.add_node(Node::as_good(id.into(), addr));
+    }
+
+    /// Offer a node that somebody else told us about.
+    pub fn offer_questionable(&mut self, id: [u8; INFO_HASH_LEN], addr: SocketAddr) {
+        self.0.add_node(Node::as_questionable(id.into(), addr));
+    }
+
+    /// What the handler does with an accepted response.
+    pub fn add_nodes(
+        &mut self,
+        id: [u8; INFO_HASH_LEN],
+        addr: SocketAddr,
+        named: &[([u8; INFO_HASH_LEN], SocketAddr)],
+    ) {
+        let named: Vec<_> = named
+            .iter()
+            .map(|(id, addr)| NodeHandle::new((*id).into(), *addr))
+            .collect();
+        self.0.add_nodes(Node::as_good(id.into(), addr), &named);
+    }
+
+    /// Record that we sent a request to the node. Returns false if it is not a live table entry.
+    pub fn mark_local(&mut self, id: [u8; INFO_HASH_LEN], addr: SocketAddr) -> bool {
+        match self.0.find_node_mut(&NodeHandle::new(id.into(), addr)) {
+            Some(node) => {
+                node.local_request();
+                true
+            }
+            None => false,
+        }
+    }
+
+    /// Record that the node sent us a request. Returns false if it is not a live table entry.
+    pub fn mark_remote(&mut self, id: [u8; INFO_HASH_LEN], addr: SocketAddr) -> bool {
+        match self.0.find_node_mut(&NodeHandle::new(id.into(), addr)) {
+            Some(node) => {
+                node.remote_request();
+                true
+            }
+            None => false,
+        }
+    }
+
+    pub fn dump(&self) -> Vec<Vec<SlotDump>> {
+        dump_table(&self.0)
+    }
+
+    pub fn closest(&self, target: [u8; INFO_HASH_LEN]) -> Vec<SlotDump> {
+        self.0.closest_nodes(target.into()).map(dump_node).collect()
+    }
+
+    pub fn contacts(&self) -> (HashSet<SocketAddr>, HashSet<SocketAddr>) {
+        self.0.load_contacts()
+    }
+
+    pub fn counts(&self) -> (usize, usize) {
+        (self.0.num_good_nodes(), self.0.num_questionable_nodes())
+    }
+
+    pub fn bucket_count(&self) -> usize {
+        self.0.buckets().count()
+    }
+}
+
+// ---------------------------------------------------------------------------------------------
+// Token store
+
+pub struct Tokens(TokenStore);
+
+impl Tokens {
+    #[allow(clippy::new_without_default)]
+    pub fn new() -> Self {
+        Self(TokenStore::new())
+    }
+
+    pub fn checkout(&mut self, ip: IpAddr) -> [u8; INFO_HASH_LEN] {
+        self.0.checkout(ip).into()
+    }
+
+    /// What the handler does with the token of an announce: wrong length is invalid.
+    pub fn checkin(&mut self, ip: IpAddr, token: &[u8]) -> bool {
+        match Token::new(token) {
+            Ok(token) => self.0.checkin(ip, token),
+            Err(_) => false,
+        }
+    }
+
+    /// (current secret, previous secret, last refresh in ms since the epoch)
+    pub fn secrets(&self) -> (u32, u32, i64) {
+        let (curr, last, refresh) = self.0.verif_fields();
+        (curr, last, ms(refresh))
+    }
+}
+
+// ---------------------------------------------------------------------------------------------
+// Peer store
+
+pub struct Peers(AnnounceStorage);
+
+impl Peers {
+    #[allow(clippy::new_without_default)]
+    pub fn new() -> Self {
+        Self(AnnounceStorage::new())
+    }
+
+    pub fn add(&mut self, info_hash: [u8; INFO_HASH_LEN], addr: SocketAddr) -> bool {
+        self.0.add_item(info_hash.into(), addr)
+    }
+
+    pub fn find(&mut self, info_hash: [u8; INFO_HASH_LEN]) -> Vec<SocketAddr> {
+        self.0.find_items(&info_hash.into()).collect()
+    }
+
+    /// The expiry queue in order: (info hash, address, inserted at ms since the epoch).
+    pub fn queue(&self) -> Vec<([u8; INFO_HASH_LEN], SocketAddr, i64)> {
+        peers_queue(&self.0)
+    }
+
+    /// Total number of (info hash, address) pairs in the per-hash index.
+    pub fn indexed(&self) -> usize {
+        self.0.verif_indexed()
+    }
+}
+
+pub(crate) fn peers_queue(storage: &AnnounceStorage) -> Vec<([u8; INFO_HASH_LEN], SocketAddr, i64)> {
+    storage
+        .verif_queue()
+        .into_iter()
+        .map(|(hash, addr, at)| (hash.into(), addr, ms(at)))
+        .collect()
+}
+
+// ---------------------------------------------------------------------------------------------
+// Transaction ids
+
+pub struct Aids(AIDGenerator);
+
+impl Aids {
+    #[allow(clippy::new_without_default)]
+    pub fn new() -> Self {
+        Self(AIDGenerator::new())
+    }
+
+    pub fn generate(&mut self) -> Mids {
+        Mids(self.0.generate())
+    }
+}
+
+pub struct Mids(MIDGenerator);
+
+impl Mids {
+    /// The 5-byte action id as an integer.
+    pub fn action_id(&self) -> u64 {
+        self.0.action_id().verif_value()
+    }
+
+    pub fn generate(&mut self) -> [u8; 8] {
+        self.0.generate().as_ref().try_into().unwrap()
+    }
+}
